@@ -54,6 +54,10 @@ REGISTRY = {
                 undecided=[],
                 trusted=['cos^2+sin^2=1, cos 0 = 1, sin 0 = 0, sqrt axioms; np.array of an unbounded list of rows keeps the rows',
                          'taper1/taper2 (search loops over k with for-else) and Helix.__init__ are NOT under contract: bounded stand-in only']),
+    'C19': dict(module='contracts.C19', level='other',
+                native=native_sweep('c19_format.py', 'run-time contract of format_float over a boundary lattice (43 decades x 2 signs x use_e x rounding-boundary mantissas) and read-back of complete reports of electrically tiny and ordinary antennas', 20, 3000),
+                undecided=[],
+                trusted=['% conversions render within their class: %d of an int exactly, %g with six significant digits']),
     'C14': dict(module='contracts.C14', level='proof',
                 native=native_sweep('c14_history.py', 'sweep step == fresh run (every load kind, radii at the small-radius threshold), far/near order and repetition, compute twice, two processes with different hash seeds byte-identical (report and option file)', 12, 300),
                 undecided=['byte-identity of numpy/LAPACK/scipy results across processes is assumed (deterministic library functions)'],
